@@ -364,7 +364,7 @@ def inj_trace(tid, api, x, flush_first=False):
             raise RuntimeError("baseline call of %s raised %s" % (api, r0[1]))
         _BASELINE[key] = list(r0[2])
     raised, err, out, eof = inj_run(api, x, flush_first)
-    return {"id": tid, "cfg": {"api": api, "x": list(x)},
+    return {"id": tid, "cfg": {"api": api, "x": list(x), "flush_first": bool(flush_first)},
             "ev": [{"a": "call", "args": [], "obs": {"raised": raised, "err": err}},
                    {"a": "response", "args": [], "obs": {"raised": raised, "out": list(out), "eof": bool(eof),
                                                         "out0": _BASELINE[key]}}]}
